@@ -1145,3 +1145,22 @@ M("c06-pow-zero-sign-lost", ["C06"], VA,
 M("c13-unary-before-exponent-accepted", ["C13"], PA,
   "            if self._check(TokenType.STARSTAR):\n                # -2 ** 2 is neither", "            if False:\n                # -2 ** 2 is neither",
   [("C13", "C13-R13", "unary-before-exponent")], note="fix bf4b913 reverted")
+
+# ---- wave 12 --------------------------------------------------------------------------------------------
+S("seed-C01-g", ["C01"], "seeded/C01-g/patch.diff", [("C01", "C01-R10", "_scan_ahead")], note="look-aheads read from a scratch lexer that is built without the deadline callback", silent=("C04", "C13", "C07"))
+TP("t-lookahead-scratch-lexer", ALL_PROPS, "selftest/patches/t-lookahead-scratch-lexer.diff", note="the same scratch lexer with the poll handed on (repaired C01-g)")
+S("seed-C04-f", ["C04", "C02"], "seeded/C04-f/patch.diff", [("C04", "C04-R16", "_call_callback"), ("C02", "C02-R12", "_call_callback")], note="host-level budget through a generator context manager whose acquisition sits inside the try", silent=("C05", "C08"))
+TP("t-host-level-contextmanager", ALL_PROPS, "selftest/patches/t-host-level-contextmanager.diff", note="the same context manager with the acquisition before the try (repaired C04-f)")
+S("seed-C06-f", ["C06", "C18", "C17"], "seeded/C06-f/patch.diff", [("C06", "C06-R13", "to_string"), ("C18", "C18-R6", "to_string"), ("C17", "C17-R17", "to_string")], note="whole doubles printed through int(): exact digits beyond 2**53")
+S("seed-C09-g", ["C09"], "seeded/C09-g/patch.diff", [("C09", "C09-R4", "_run_lookbehind")], note="captures copied once per lookbehind assertion instead of once per start position")
+S("seed-C11-f", ["C11"], "seeded/C11-f/patch.diff", [("C11", "C11-R10", "_to_js")], note="converted lists built through the script's Array constructor: a single number is a length", silent=("C03",))
+TP("t-converted-values-get-prototypes", ALL_PROPS, "selftest/patches/t-converted-values-get-prototypes.diff", note="converted arrays and objects given their prototypes through the object model (repaired C11-f)")
+S("seed-C13-f", ["C13"], "seeded/C13-f/patch.diff", [("C13", "C13-R12", "_read_string")], note="the string fast path of C13-e by a second author")
+S("seed-C14-f", ["C14", "C04"], "seeded/C14-f/patch.diff", [("C14", "C14-R3", "_call_callback"), ("C04", "C04-R3", "_call_callback")], note="wide constant index chosen inside the encoder; the second decode loop does not know it")
+TP("t-wide-constant-index", ALL_PROPS, "selftest/patches/t-wide-constant-index.diff", note="the same wide form decoded by both loops (repaired C14-f)")
+S("seed-C15-g", ["C15"], "seeded/C15-g/patch.diff", [("C15", "C15-R1", "_compile_function")], note="locals laid out with sorted(set, key=<two-valued>): the stable sort keeps the hash order within each class")
+TP("t-captured-locals-last", ALL_PROPS, "selftest/patches/t-captured-locals-last.diff", note="the same layout with the name as second sort key (repaired C15-g)")
+S("seed-C16-f", ["C16"], "seeded/C16-f/patch.diff", [("C16", "C16-R11", "_get_property")], note="string index fast path entered with isinstance(key, int): booleans are ints for the host", silent=("C03", "C04"))
+TP("t-string-index-fast-path", ALL_PROPS, "selftest/patches/t-string-index-fast-path.diff", note="the same fast path entered with type(key) is int (repaired C16-f)")
+S("seed-C18-f", ["C18"], "seeded/C18-f/patch.diff", [("C18", "C18-R15", "_fraction_to_base")], note="fraction digits in a helper that takes the ulp of the fraction instead of the number")
+TP("t-fraction-digits-helper", ALL_PROPS, "selftest/patches/t-fraction-digits-helper.diff", note="the same helper given the number's own spacing (repaired C18-f)")
